@@ -22,7 +22,7 @@ from __future__ import annotations
 import ast
 
 from harness.common import TranslateError, ast_digest, src_text
-from translate.c18_guard import ACCESS, PURE_OS, _coq_ident, _coq_str, _dotted, wrapper_census
+from translate.c18_guard import ACCESS, PURE_OS, _coq_ident, _coq_str, _dotted, shared_state_census, wrapper_census
 
 # keyword spelling of the path argument of the OS calls
 PATH_KEYWORDS = {'open': ('file',), 'io.open': ('file',), 'os.open': ('path',), 'os.walk': ('top',), 'os.stat': ('path',),
@@ -501,6 +501,7 @@ def translate() -> tuple[str, dict]:
         raise TranslateError('filesys.py: FileSystemChain makes no recognised call into its members')
 
     wrappers = wrapper_census(tree)
+    shared = shared_state_census(tree)
 
     def site(m, c, b, p):
         return f'  {{| st_method := "{m}"; st_callee := "{c}"; st_branch := "{b}"; st_arg := {p} |}}'
@@ -522,6 +523,9 @@ def translate() -> tuple[str, dict]:
         '(* decorators / rebindings / attribute hooks on methods of File, FileSystem, RawFileSystem, FileSystemChain *)',
         'Definition method_wrappers : list (string * string * string) := [',
         ';\n'.join(f'  ("{c}", "{m}", "{_coq_ident(w)}")' for c, m, w in wrappers), '].',
+        '(* state that outlives a call and is visible to several file-system objects (module / class level tables, mutable defaults) *)',
+        'Definition shared_mutable_state : list (string * string * string) := [',
+        ';\n'.join(f'  ("{_coq_ident(c)}", "{_coq_ident(m)}", "{_coq_ident(w)}")' for c, m, w in shared), '].',
         '(* calls of FileSystemChain into a member system with a string argument *)',
         'Definition chain_calls : list ccall := [',
         ';\n'.join(f'  {{| cc_method := "{m}"; cc_member := "{mm}"; cc_arg := {p} |}}' for m, mm, p in chain_calls), '].',
@@ -529,7 +533,7 @@ def translate() -> tuple[str, dict]:
     ]
     side = {'raw_sites': [list(s) for s in raw_sites], 'raw_stores': [list(s) for s in raw_stores],
             'validated_then_stored': [list(s) for s in val_stored], 'other_sites': [list(s) for s in other_sites],
-            'chain_calls': [list(s) for s in chain_calls], 'method_wrappers': [list(w) for w in wrappers],
+            'chain_calls': [list(s) for s in chain_calls], 'method_wrappers': [list(w) for w in wrappers], 'shared_mutable_state': [list(w) for w in shared],
             'inlined_private_helpers': sorted(private_helpers), 'module_string_constants_used': sorted(consts), 'chain_handle_delegations': [list(s) for s in chain_deleg],
             'digest': ast_digest(classes['RawFileSystem'])[:12] + '/' + ast_digest(classes['FileSystemChain'])[:12]}
     return '\n'.join(lines), side
